@@ -1040,7 +1040,9 @@ symnp.round = _round
 
 
 def _array(x, *a, **k):
-    if isinstance(x, SArr): return x
+    if k.get("dtype") is sym_float: k["dtype"] = builtins.float
+    if k.get("dtype") is sym_int: k["dtype"] = builtins.int
+    if isinstance(x, SArr): return SArr(list(x.v)) if k.get("copy", True) else x
     if isinstance(x, (list, tuple)) and any(is_sym(v) for v in x): return SArr(x)
     return _np.array(x, *a, **k)
 
